@@ -147,6 +147,17 @@ def run(plan):
         prev = 0
         group = 0
         flush_pos = None
+        for dt in plan.get("cancelled_reads", []):
+            # a caller waits for a packet and is cancelled from outside (its own timeout / wait_for around the call)
+            # before anything has arrived: the wait must leave nothing behind that takes a later packet
+            t = loop.create_task(proto.read(timeout=2))
+            await asyncio.sleep(dt)
+            t.cancel()
+            try:
+                await t
+            except BaseException:       # noqa: BLE001 - CancelledError or whatever the library turns it into
+                pass
+            w.fire("blocking_read_cancelled_before_stream")
         if plan.get("idle_before"):
             await asyncio.sleep(plan["idle_before"])          # a connection that has been quiet for a while
             w.fire("idle_before_stream")
@@ -218,7 +229,8 @@ def run(plan):
         res.fired["garbage_prefix"] = 1
     if len(payloads) >= 2 and len(cuts) < len(payloads) - 1:
         res.fired["seg_coalesce"] = 1
-    res.key = (stream, tuple(cuts), gap0, plan.get("idle_before"), tuple(plan.get("long_gaps", [])), plan.get("flush_at"))
+    res.key = (stream, tuple(cuts), gap0, plan.get("idle_before"), tuple(plan.get("long_gaps", [])), plan.get("flush_at"),
+               tuple(plan.get("cancelled_reads", [])))
     res.nontrivial = bool(cuts) or has_garbage or len(payloads) >= 2
     return res
 
@@ -299,6 +311,13 @@ def space(tier):
                 continue
             sp.add(f"small_exhaustive[{si},{'gap0' if gap0 else 'gap'}]", cnt, fn, exhaustive=True)
 
+    def many(j, rng):
+        # hundreds to thousands of complete small packets in one TCP segment (a 64-256 KiB read)
+        n = rng.choice([300, 900, 1000, 1100, 1500, 2500] if tier == "quick" else [300, 990, 1010, 1500, 2500, 4000, 6000])
+        ops = [{"op": "packet", "payload": _payload(rng, rng.choice([0, 0, 1, 3, 16]), "plain").hex()} for _ in range(n)]
+        return {"ops": ops, "cuts": [], "gap0": False}
+    sp.add("many_packets_one_segment", 12 if tier == "quick" else 200, many)
+
     def lan(j, rng):
         return {"mode": "lan", "config": {"version": 3, "key": rand_bytes(rng, 32).hex(), "token": rand_bytes(rng, 64).hex()},
                 "reply": rand_bytes(rng, rng.randint(1, 60)).hex(),
@@ -339,6 +358,8 @@ def space(tier):
         else:
             cuts = list(range(1, n)) if n <= 700 else sorted({rng.randrange(1, n) for _ in range(300)})
         p = {"ops": ops, "cuts": cuts, "gap0": rng.random() < 0.3}
+        if rng.random() < 0.15:
+            p["cancelled_reads"] = [rng.choice([TICK, 0.5, 1.999]) for _ in range(rng.randint(1, 2))]
         if rng.random() < 0.25:
             p["idle_before"] = rng.choice([2.5, 11.0, 61.0, 3700.0])
         if cuts and rng.random() < 0.25:
